@@ -5,7 +5,8 @@ META = {
     "bounds": {"quick": {"scores": "genuines/frauds 0..2 each, symbolic reals NOT constrained to [0,1], unsorted with ties", "easy counts": "symbolic >= 0",
                          "queries": "cm, 6 rates, 6 threshold setters (any real target), aliases genuines/frauds, from_labels, label translations"},
                "thorough": {"scores": "0..3 each"}},
-    "assumptions": ["the median heuristic only warns; warnings are ignored", "R-ideal for threshold setting"],
+    "assumptions": ["kind=validate_fbits: F-bits regime (z3 FloatingPoint doubles, finite, |x| < 1e300) for the range validation of 1-2 scores; all other items R-exact",
+                    "the median heuristic only warns; warnings are ignored", "R-ideal for threshold setting"],
 }
 OPTS = {"quick": {"query_timeout_ms": 30000}, "thorough": {"query_timeout_ms": 120000, "max_paths": 50000}}
 TR = {"genuine": "pos", "fraud": "neg"}
@@ -19,6 +20,8 @@ def items(tier):
             out.append({"kind": "validate", "sc": sc, "G": G, "F": F})
             out.append({"kind": "queries", "sc": sc, "G": G, "F": F})
         out.append({"kind": "from_labels", "sc": sc, "n": 3})
+        for where in ("genuine", "fraud", "both"):
+            out.append({"kind": "validate_fbits", "sc": sc, "where": where})
     out.append({"kind": "labels"})
     return out
 
@@ -38,6 +41,23 @@ def run_validate(h, sc, G, F):
     except ValueError:
         raised = True
     h.check("construction raises ValueError exactly when some score lies outside [0,1]", outside if raised else h.Not(outside))
+
+
+def run_validate_fbits(h, sc, where):
+    """F-bits: the scores are SYMBOLIC IEEE doubles (sub-normals and values within one ulp of 0 and 1 included): the
+    range test of the real constructor is decided bit-precisely, so a rewrite of the test that is equivalent over the
+    reals but rounds (|x - 1/2| > 1/2, x*(1-x) < 0, ...) is refuted."""
+    h.policy(sort="fork", gather="fork", fp_kernel=True)
+    x = h.fp("x")
+    gen = [x] if where != "fraud" else []
+    fra = [x] if where == "fraud" else ([h.fp("y")] if where == "both" else [])
+    outside = h.Or([h.Or(v < 0.0, v > 1.0) for v in gen + fra])
+    try:
+        h.sa.applications.FraudScores(genuines=h.array(gen), frauds=h.array(fra), score_class=sc)
+        raised = False
+    except ValueError:
+        raised = True
+    h.check("[float64] construction raises ValueError exactly when some double lies outside [0,1]", outside if raised else h.Not(outside))
 
 
 def _both(h, sc, G, F, sorted_=False):
